@@ -38,6 +38,17 @@ CHECKS['C06'] = ('E-PA', 'engines/e_pa.py',
     'the model and the value generators in engines/e_pa.py; only valid arguments are generated; physical order is checked only through the alignment invariant',
     'DESIGN.md section 3 E-PA')
 
+CHECKS['C01'] = ('E-NNPS', 'engines/e_nnps.py',
+    'deterministic simulation: seeded update histories (move / h change / add / remove / cache toggle / re-order + update) and cache-fill schedules (lazy fill in a drawn order, find_all_neighbors under drawn thread counts, implicit/explicit context) on every compiled CPU NNPS class, exact brute-force oracle with an equality band; every run in its own forked child',
+    'seeded search over (distribution incl. lattice-on-faces/coincident/collinear/far-from-origin/h over decades, class and knobs, 1-3 arrays, all (src,dst) pairs, update history, query mode); oracle: no missing / extra / duplicate / out-of-range index. Classes with recorded defects (z-order family, octree crashes) get a fixed small share of the runs and are attributed to narrowly signed known findings. Sampling, not proof.',
+    'brute-force oracle in Python floats; pairs within 1e-12 relative of the cut-off may go either way; approximate=False; grid size bounded; slow (>25 s) runs are counted, not reported; real OpenMP threads for find_all_neighbors (static schedule) are not owned by the simulator',
+    'DESIGN.md section 3 E-NNPS')
+CHECKS['C17'] = ('E-NNPS', 'engines/e_nnps.py',
+    'deterministic simulation (history dimension): seeded histories dominated by spatial re-ordering on arrays with typed/strided identity properties and non-local tags, for every class implementing get_spatially_ordered_indices; permutation / whole-particle multiset / real-first invariants and exact queries after the next update',
+    'seeded search over distributions, classes, repeated re-ordering interleaved with moves/adds/removes; checks: index list is a permutation of 0..n-1, multiset of whole particle records (all properties, strides) unchanged, Local particles first and counted by num_real_particles, neighbour queries exact after the following update. Sampling, not proof.',
+    'same trusted base as C01; neighbour-set violations without any re-ordering in the history are left to C01',
+    'DESIGN.md section 3 E-NNPS / section 4 C17')
+
 PENDING = {}
 
 
